@@ -265,12 +265,16 @@ pub async fn apply(cx: &Ctx, st: &mut SeqState, op: &Op, unfrozen: bool) -> Resu
         Op::CreateSub(s, t, dl) => {
             let r = call(cx, unfrozen, "client:create-sub", async move { a.create_sub(s, t, dl, None).await }).await?;
             v2v(st.model.create_sub(s, t, dl, None, &r), st, &ops)?;
-            st.streams.remove(s);
+            if r.is_ok() {
+                st.streams.remove(s);
+            }
         }
         Op::DeleteSub(s) => {
             let r = call(cx, unfrozen, "client:delete-sub", async move { a.delete_sub(s).await }).await?;
             v2v(st.model.delete_sub(s, &r), st, &ops)?;
-            st.streams.remove(s);
+            if r.is_ok() {
+                st.streams.remove(s);
+            }
         }
         Op::GetSub(s) => {
             let r = call(cx, unfrozen, "client:get-sub", async move { a.get_sub(s).await }).await?;
